@@ -33,6 +33,15 @@ class AbsRaise(Exception):
         self.where = where
 
 
+class AbsMutation(Exception):
+    """The evaluated code stores into an object that the caller marked as owned by the input."""
+
+    def __init__(self, what: str, where: str = "") -> None:
+        super().__init__(what)
+        self.what = what
+        self.where = where
+
+
 class _Return(Exception):
     def __init__(self, value: Any) -> None:
         self.value = value
@@ -144,6 +153,13 @@ class ModuleRef:
         self.name = name
 
 
+class SuperProxy:
+    """super() inside a method: attribute lookup continues after the current class in the MRO."""
+
+    def __init__(self, obj: Any, fi: FuncInfo) -> None:
+        self.obj, self.fi = obj, fi
+
+
 class Lambda:
     def __init__(self, node: ast.Lambda, env: dict, fi: Optional[FuncInfo]) -> None:
         self.node, self.env, self.fi = node, env, fi
@@ -178,6 +194,8 @@ class Interp:
         if fi.qual in self.native and not skip_native:
             return self.native[fi.qual](*args, **kwargs)
         self.called.add(fi.qual)
+        if self.depth == 0:
+            self.steps = 0
         self.depth += 1
         if self.depth > self.max_depth:
             self.depth -= 1
@@ -304,8 +322,8 @@ class Interp:
             obj = self.eval(t.value, env, fi)
             if isinstance(obj, AObj):
                 if obj._f.get("_frozen"):
-                    raise AnalysisError("ABSINT", f"store into frozen abstract object: {src(t)}",
-                                        loc(fi.unit.path, t) if fi else "")
+                    raise AbsMutation(f"store into {obj._cls}.{t.attr} ({src(t)})",
+                                      loc(fi.unit.path, t) if fi else "")
                 obj._f[t.attr] = v
             else:
                 raise AnalysisError("ABSINT", f"attribute store outside fragment: {src(t)}")
@@ -313,6 +331,9 @@ class Interp:
             obj = self.eval(t.value, env, fi)
             idx = self.eval(t.slice, env, fi)
             if isinstance(obj, (dict, list)):
+                if getattr(obj, "_frozen", False):
+                    raise AbsMutation(f"subscript store into an input container ({src(t)})",
+                                      loc(fi.unit.path, t) if fi else "")
                 obj[idx] = v
             else:
                 raise AnalysisError("ABSINT", f"subscript store outside fragment: {src(t)}")
@@ -418,6 +439,8 @@ class Interp:
                 hi = self.eval(n.slice.upper, env, fi) if n.slice.upper else None
                 stp = self.eval(n.slice.step, env, fi) if n.slice.step else None
                 return obj[lo:hi:stp]
+            if isinstance(obj, tuple) and len(obj) == 2 and obj[0] == "builtin":
+                return obj           # list["X"] -> list
             idx = self.eval(n.slice, env, fi)
             try:
                 return obj[idx]
@@ -548,7 +571,20 @@ class Interp:
             return {"True": True, "False": False, "None": None}[name]
         if name in _BUILTINS or name in _BUILTIN_TYPES:
             return ("builtin", name)
+        if fi is not None and name in self._locals(fi):
+            raise AbsRaise(f"UnboundLocalError: {name}", loc(fi.unit.path, n))
         raise AnalysisError("ABSINT", f"unbound name {name}", loc(fi.unit.path, n) if fi else "")
+
+    def _locals(self, fi: FuncInfo) -> set[str]:
+        key = id(fi.node)
+        cache = self.__dict__.setdefault("_loc_cache", {})
+        if key not in cache:
+            names = set()
+            for x in ast.walk(fi.node):
+                if isinstance(x, ast.Name) and isinstance(x.ctx, ast.Store):
+                    names.add(x.id)
+            cache[key] = names
+        return cache[key]
 
     def module_name(self, u: Unit, name: str) -> Any:
         key = (u.mod, name)
@@ -594,6 +630,12 @@ class Interp:
 
     def getattr(self, obj: Any, attr: str, n: ast.AST, fi: Optional[FuncInfo]) -> Any:
         where = loc(fi.unit.path, n) if fi else ""
+        if isinstance(obj, SuperProxy):
+            if obj.fi.cls is not None:
+                for c in self.pm.mro(obj.fi.cls)[1:]:
+                    if attr in c.methods:
+                        return BoundMethod(obj.obj, c.methods[attr])
+            return SuperProxy(obj.obj, obj.fi)      # base outside the program model: no-op call
         if isinstance(obj, AObj):
             if attr in obj._f:
                 obj._reads.add(attr)
@@ -654,6 +696,8 @@ class Interp:
                 return (any if nm == "any" else all)(self.truth(x) for x in seq)
             if nm == "cast" and len(n.args) == 2:
                 return self.eval(n.args[1], env, fi)
+            if nm == "super" and not n.args and fi is not None and fi.params:
+                return SuperProxy(env.get(fi.params[0]), fi)
         f = self.eval(n.func, env, fi)
         args = []
         for a in n.args:
@@ -677,7 +721,20 @@ class Interp:
             hook = self.native.get(f"new:{f.ci.name}")
             if hook is not None:
                 return hook(*args, **kwargs)
-            raise AnalysisError("ABSINT", f"construction of {f.ci.name} outside fragment", where)
+            if self.pm.is_enum(f.ci) and len(args) == 1:
+                for k, val in self.pm.enum_members(f.ci).items():
+                    if val == args[0]:
+                        return EnumVal(f.ci.name, k, val)
+                raise AbsRaise(f"ValueError: {args[0]!r} is not a valid {f.ci.name}", where)
+            init = self.pm.method(f.ci, "__init__")
+            obj = AObj(f.ci.name)
+            if init is not None:
+                self.call(init, [obj] + args, kwargs)
+            elif args or kwargs:
+                raise AbsRaise(f"TypeError: {f.ci.name}() takes no arguments", where)
+            return obj
+        if isinstance(f, SuperProxy):
+            return None
         if isinstance(f, tuple) and f and f[0] == "builtin":
             return self.builtin(f[1], args, kwargs, n, where)
         if isinstance(f, tuple) and f and f[0] == "pymethod":
@@ -685,7 +742,7 @@ class Interp:
             if attr in ("append", "extend", "add", "update", "pop", "insert", "remove", "clear",
                         "sort", "reverse", "setdefault") and isinstance(obj, (list, set, dict)) \
                     and getattr(obj, "_frozen", False):
-                raise AnalysisError("ABSINT", f"mutation of frozen container via {attr}", where)
+                raise AbsMutation(f"{attr}() on an input container ({src(n)})", where)
             if isinstance(obj, str) and attr in ("startswith", "endswith", "lower", "upper",
                                                  "replace", "strip", "split", "join", "casefold",
                                                  "find", "format", "isdigit", "count"):
